@@ -432,6 +432,12 @@ def gen_case(ctx, i):
     elif r < 0.46:
         content = cg.gen_content(rng, all_vars_have_eq=False, p_ia_par=0.0, p_ia_var=0.15)
         stratum = "noeq"
+        rnames = {k for k, _ in content["rxns"]}
+        reads = {a for _, f in content["derived"] for a in f["args"]}
+        reads |= {a for _, v in content["vars"] + content["pars"] if "ia" in v for a in v["ia"]["args"]}
+        if rng.random() < 0.3 and not (rnames & reads):    # no reaction at all (F-C07-3 as it is now)
+            content["rxns"] = []
+            stratum = "noeq-at-all"
     elif r < 0.58:
         content = cg.gen_content(rng, all_vars_have_eq=rng.random() < 0.7, p_ia_par=0.35, p_ia_var=0.2)
         stratum = "ia"
@@ -481,8 +487,8 @@ def gen_case(ctx, i):
 
 def exhaustive_cases(thorough: bool):
     """Seed-independent stratum: every content of a small grammar — 1-2 variables, 0-1 parameter, 0-2 derived values
-    (a chain, in both declaration orders), 1-2 reactions with every non-empty stoichiometry pattern over the
-    variables (coefficients -1 / 2), rates and derived functions from {a0, a0+a1, a0*a1} over the first names of
+    (a chain, in both declaration orders), 0-2 reactions with every non-empty stoichiometry pattern over the
+    variables (coefficients -1 / 2; so also: a variable no reaction changes next to one that is changed), rates and derived functions from {a0, a0+a1, a0*a1} over the first names of
     the pool; optionally the parameter free."""
     import itertools
 
@@ -505,7 +511,7 @@ def exhaustive_cases(thorough: bool):
         for dconf in dconfs:
             pool = base + [k for k, _ in sorted(dconf)]
             rate_args = [pool[-1], pool[0]]
-            rconfs = []
+            rconfs = [[]]       # no reaction at all: F-C07-3 as it is now (`return ()` / `[()]`)
             for p1 in patterns:
                 r1 = ["r1", {"args": rate_args, "e": F2[1], "st": [[v, {"c": c}] for v, c in zip(vs, p1) if c]}]
                 rconfs.append([r1])
@@ -608,7 +614,9 @@ def classify(case, lang, ent, feats):
         return "F-C07-4", True
     # F-C07-5 (parameters defined by an initial assignment), F-C07-7 / F-C07-8 (Rust printer) are repaired: such
     # inputs are judged like any other
-    if feats["var_without_eq"]:
+    # F-C07-3: no reaction changes any variable -> `return ()` / `[()]`.  A variable without a reaction next to
+    # variables with one is repaired (it gets `d<x>dt = 0`) and judged like any other input
+    if feats["no_eq"]:
         return "F-C07-3", True
     return None, True
 
@@ -928,7 +936,11 @@ CORPUS = [
     {"content": {"vars": [["x", {"v": "1"}], ["y", {"v": "1"}]], "pars": [["k", {"v": "2"}]], "derived": [],
                  "rxns": [["r", {"args": ["x", "k"], "e": ["*", ["a", 0], ["a", 1]], "st": [["x", {"c": "-1"}], ["y", {"c": "1"}]]}]]},
      "free": ["k"], "states": [["0", ["3", "1"], ["3"]]], "stratum": "corpus"},
-    # variable without a reaction (F-C07-3)
+    # no reaction changes any variable (F-C07-3 as it is now): `return ()` / `[()]`
+    {"content": {"vars": [["x", {"v": "1"}], ["z", {"v": "1"}]], "pars": [["k", {"v": "2"}]],
+                 "derived": [["d", {"args": ["x", "k"], "e": ["*", ["a", 0], ["a", 1]]}]], "rxns": []},
+     "free": [], "states": [["0", ["3", "1"], []]], "stratum": "corpus"},
+    # variable without a reaction next to one with a reaction (former part of F-C07-3, repaired: dzdt = 0)
     {"content": {"vars": [["x", {"v": "1"}], ["z", {"v": "1"}]], "pars": [["k", {"v": "2"}]], "derived": [],
                  "rxns": [["r", {"args": ["x", "k"], "e": ["*", ["a", 0], ["a", 1]], "st": [["x", {"c": "-1"}]]}]]},
      "free": [], "states": [["0", ["3", "1"], []]], "stratum": "corpus"},
